@@ -19,12 +19,15 @@
 (*                                                                         *)
 (* Code being modelled (one action per phase of rtsafe_):                  *)
 (*   Init      fl,fh = f(bracket); x0 = clip(guess); x0 = NaN unless       *)
-(*             fl*fh < 0; end point with f = 0 overrides and sets          *)
-(*             converged; orient so that f(xl) < 0; dx = dxOld = width;    *)
-(*             F,DF = f,f'(x0)                                             *)
+(*             sign(fl)*sign(fh) < 0; end point with f = 0 overrides and   *)
+(*             sets converged; orient so that f(xl) < 0; dx = dxOld =      *)
+(*             width; F,DF = f,f'(x0); F = 0 counts as converged           *)
+(*             (StopOnExactRoot, the code since /repo 537ef08)             *)
 (*   Bisect    if the Newton step leaves (xl,xh) or |2F| > |dxOld*DF|      *)
 (*   Newton    otherwise                                                   *)
 (*   ZeroSlope Newton branch taken with F = 0 and DF = 0: -0/0 = NaN       *)
+(*             (reachable only in the variant StopOnExactRoot = FALSE,     *)
+(*             the code before 537ef08; kept as the regression model)      *)
 (*   NaNStep   NaN iterate: all comparisons false, Newton branch, NaN      *)
 (*   Stop      loop exit: converged or i = max_iters; result NaN unless    *)
 (*             converged                                                   *)
@@ -38,7 +41,7 @@ CONSTANTS N,            \* lattice 0..N
           DVals,        \* slopes f' may take (integers, contains 0)
           MaxIters,
           Degenerate,   \* TRUE: the environment may present f = 0 and f' = 0 at the same abscissa
-          StopOnExactRoot \* FALSE models the code as it is; TRUE models the variant that treats F = 0 as converged
+          StopOnExactRoot \* TRUE models the code as it is (F = 0 counts as converged); FALSE the code before 537ef08
 
 VARIABLES b0, b1, fl, fh, guess, T, R,                 \* the call (constant after Init)
           root, dx, dxOld, F, DF, xl, xh, conv, i,     \* the loop carry of rtsafe_
@@ -172,8 +175,8 @@ RootInBracket ==
                 /\ b0 <= Min(xl, xh) /\ Max(xl, xh) <= b1
 Oriented == (SignChange(Sgn(fl), Sgn(fh)) /\ root # NaN) => (sxl < 0 /\ sxh >= 0)
 ConvergedMeansTolerance == (conv /\ i > 0) => MeetsTol(Obs)
-NaNOnlyWhenUnbracketed ==         \* holds when the environment is not Degenerate
-  (pc = "done" /\ ~Degenerate /\ Result = NaN) => ~SignChange(Sgn(fl), Sgn(fh))
+NaNOnlyWhenUnbracketed ==         \* holds for the code as it is, and for the old code unless the environment is Degenerate
+  (pc = "done" /\ (StopOnExactRoot \/ ~Degenerate) /\ Result = NaN) => ~SignChange(Sgn(fl), Sgn(fh))
 ItersBounded == i <= MaxIters
 
 \* after Init the guess and the magnitudes of fl, fh are never read again
@@ -188,7 +191,12 @@ BracketsK5 == {<<0, 32>>, <<8, 24>>, <<2, 30>>, <<0, 16>>, <<5, 32>>, <<3, 19>>}
 TolsAll    == {<<2, 0>>, <<0, 2>>, <<2, 2>>, <<4, 1>>}
 TolsQ      == {<<2, 0>>, <<0, 2>>, <<2, 2>>}
 BracketsQ  == {<<0, 16>>, <<5, 16>>}
+BracketsOne == {<<0, 16>>}
 F2 == (0 - 2)..2
+F1 == (0 - 1)..1
+D01 == {0, 1}
+DQ == {0 - 1, 0, 1, 2}
+TolsOne == {<<2, 0>>}
 F3 == (0 - 3)..3
 F124 == {0 - 4, 0 - 2, 0 - 1, 0, 1, 2, 4}
 F4 == (0 - 4)..4
